@@ -4,7 +4,7 @@
 # the property text: the checks must stay quiet on each (a FIRED line is a false alarm of the machinery).
 # Runs a frozen snapshot of the machinery so that editing rules while it runs does not mix versions.
 J=4; if [ "$1" = "-j" ]; then J=$2; shift 2; fi
-FILES="$@"; [ -z "$FILES" ] && FILES=$(ls /verif/refactors/*.diff /verif/refactors/round2/*.diff /verif/refactors/round3/*.diff 2>/dev/null)
+FILES="$@"; [ -z "$FILES" ] && FILES=$(ls /verif/refactors/*.diff /verif/refactors/round2/*.diff /verif/refactors/round3/*.diff /verif/refactors/round4/*.diff 2>/dev/null)
 S=/var/tmp/verif-snap-$$
 mkdir -p $S && cp -rp /verif/check /verif/hdlint /verif/known_findings.txt /verif/mutants /verif/properties.jsonl /verif/tools $S/ 2>/dev/null
 rm -rf $S/hdlint/driver/target
